@@ -608,6 +608,20 @@ func GenFilter(t *rapid.T, list string, o Opts, haveArch *string) (Filter, strin
 			name = pick(t, "pathfield", []string{"path", "dir", "exe"})
 			s = append([]byte("/"), s...)
 		}
+		if rapid.IntRange(0, 9).Draw(t, "longvalue") == 0 {
+			// values up to (and one past) the limits the library states: 4096 bytes per string, 256 for a key field
+			limit := 4096
+			if name == "key" {
+				limit = 256
+			}
+			want := rapid.OneOf(rapid.SampledFrom([]int{limit - 1, limit, limit, limit + 1}), rapid.IntRange(31, limit)).Draw(t, "longlen")
+			for len(s) < want {
+				s = append(s, s[:min(len(s), want-len(s))]...)
+			}
+			if len(s) > limit {
+				invalid = "string value longer than the library's limit"
+			}
+		}
 		if o.Strict && !o.FlagsRoute && (op == "<" || op == ">" || op == "&") && rapid.IntRange(0, 7).Draw(t, "ambiguous") == 0 {
 			// struct route only: after '<', '>' or '&' a value that starts with '=' prints as the text of another operator
 			s = append([]byte("="), s...)
@@ -850,6 +864,19 @@ func genKeys(t *rapid.T, o Opts) [][]byte {
 			k = strings.ReplaceAll(k, "\x01", "_")
 		}
 		keys = append(keys, []byte(k))
+	}
+	if len(keys) > 0 && rapid.IntRange(0, 9).Draw(t, "longkeys") == 0 {
+		// the keys of a rule travel joined by 0x01 in one field of at most 256 bytes
+		joined := len(keys) - 1
+		for _, k := range keys {
+			joined += len(k)
+		}
+		want := rapid.OneOf(rapid.SampledFrom([]int{255, 256, 256, 257}), rapid.IntRange(13, 256)).Draw(t, "keyslen")
+		last := keys[len(keys)-1]
+		for ; joined < want; joined++ {
+			last = append(last, last[len(last)%len(keys[len(keys)-1])])
+		}
+		keys[len(keys)-1] = last
 	}
 	return keys
 }
